@@ -161,7 +161,40 @@ namespace xv
 
     // bound in ulp for function f at argument(s) x (, y) with exact result r
     template <class T>
+    inline double bound_of_batch(const MFun& f, long double x, long double y, long double r);
+
+    // C17 judges the scalar overloads (the C library's functions behind xsimd's scalar names) against the bound the
+    // property text states for the function family, not against the tighter per-function constants frozen for the batch kernels
+    inline bool& scalar_bounds()
+    {
+        static bool v = false;
+        return v;
+    }
+
+    template <class T>
     inline double bound_of(const MFun& f, long double x, long double y, long double r)
+    {
+        constexpr bool F = std::is_same<T, float>::value;
+        double B = bound_of_batch<T>(f, x, y, r);
+        if (!scalar_bounds())
+            return B;
+        switch (f.rule)
+        {
+        case R_POW:
+            return B;
+        case R_TGAMMA:
+            return F ? (fabsl(x) <= 33 ? 16.0 : 256.0) : B;
+        case R_ERFC64:
+            return F ? 128.0 : B;
+        case R_LGAMMA:
+            return B < 8.0 ? 8.0 : B;
+        default:
+            return (B > 0.5 && B < 4.5) ? 4.5 : B; // sqrt keeps 0.5
+        }
+    }
+
+    template <class T>
+    inline double bound_of_batch(const MFun& f, long double x, long double y, long double r)
     {
         constexpr bool F = std::is_same<T, float>::value;
         switch (f.rule)
